@@ -13,7 +13,7 @@ import json
 import os
 import subprocess
 
-from mc.common import Ctx, InternalError, VERIF, pmap, rotate
+from mc.common import Ctx, InternalError, VERIF, pmap, rotate, pmap_tagged
 import mc.fd  # noqa: F401
 
 LEVEL = "model_checking"
@@ -69,7 +69,7 @@ def run(ctx: Ctx) -> None:
     cfgs = rotate(configs(ctx.tier), ctx.seed)
     tasks = [(c, e) for c in cfgs for e in ENVS]
     ctx.log(f"{len(cfgs)} configurations x {len(ENVS)} environment variants = {len(tasks)} child processes")
-    results = pmap(child, tasks, chunk=1)
+    results = pmap_tagged(child, tasks, chunk=1)
     by_cfg = {}
     for (c, e), r in zip(tasks, results):
         by_cfg.setdefault((c["name"], c["seed"], c["pop"]), []).append((e, r))
